@@ -12,3 +12,43 @@ def run(ctx):
     if facts is not None:
         ctx.prove(families=("processor",))
     proccommon.run_processor(ctx, "C13", "")
+    shared_set(ctx)
+
+
+def shared_set(ctx):
+    """The guardian-set object is shared between the processor's Run loop and the readers of GuardianSetState (p2p, admin): the real
+    NewProcessor + Run against concurrent readers of gst.Get(), under the race detector. A race report, a wrong lookup or a runtime
+    fatal error (concurrent map access kills the whole process) is a verdict; see harness/processor/sharedset_verif_test.go."""
+    import re
+    mapping = dict(proccommon.OVERLAY)
+    mapping["node/pkg/processor/zz_verif_shared_test.go"] = "processor/sharedset_verif_test.go"
+    ov = ctx.overlay(mapping)
+    rc, out = ctx.go_test("node", "./pkg/processor", "^TestVerifSharedSet$", ov, race=True, timeout=900)
+    ctx.cov["evaluations"] += 1
+    if rc == 0:
+        ctx.cov["distinct_nontrivial"] += 1
+        return
+    race = "WARNING: DATA RACE" in out
+    fatal = re.search(r"fatal error: [^\n]*", out)
+    wrong = re.search(r"KeyIndex[^\n]*on the shared set|KeyIndex found an address[^\n]*", out)
+    if race or fatal or wrong:
+        first = out[out.find("WARNING: DATA RACE"):][:2500] if race else (fatal.group(0) if fatal else wrong.group(0))
+        funcs = sorted(set(re.findall(r"^\s+(github\.com/alephium/wormhole-fork/node/pkg/[\w/\.\(\)\*]+)\(\)", out, re.M)))[:12]
+        ctx.spec_violations.append({
+            "key": "shared-guardian-set-not-read-only",
+            "what": ("the guardian-set object shared by the processor's Run loop and the readers of GuardianSetState is written while it is "
+                     "read: %s" % ("race detector report" if race else first)),
+            "replay": {"test": "TestVerifSharedSet (go test -race, real NewProcessor + Run, 3 concurrent readers of gst.Get())",
+                       "report": first, "functions": funcs,
+                       "how_to_rerun": "./check C13 (the schedule is not replayable; the race detector reports the two accesses)"}})
+    else:
+        ctx.broken.append(("tie", "go-harness:shared-set", out[-800:]))
+
+
+def warm(ctx):
+    """setup: compile package processor + harness with the race detector once (the quick tier then links from the build cache)"""
+    mapping = dict(proccommon.OVERLAY)
+    mapping["node/pkg/processor/zz_verif_shared_test.go"] = "processor/sharedset_verif_test.go"
+    ov = ctx.overlay(mapping)
+    if ov:
+        ctx.go_test("node", "./pkg/processor", "^$", ov, race=True)
